@@ -10,5 +10,6 @@ CONSTANTS
  DevKeySites = FALSE
  DevProcForgets = FALSE
  LargeN = 16
+ DevSkipVSWhenNothingToOptimise = FALSE
 INVARIANT UserVolumeWins
 CHECK_DEADLOCK FALSE
